@@ -22,7 +22,7 @@ def main(path):
             print("REPLAY " + json.dumps(r, default=str))
             return
         c = [x for x in C.BY_PROP[prop] if x.target == doc["target"]][0]
-        if c.replay is None and ("." in c.target.split("::")[1] or c.externals or c.globals):
+        if c.replay is None and ("." in c.target.split("::")[1] or c.externals or c.globals or c.is_generator_hint):
             print("REPLAY " + json.dumps({"status": "no-harness", "detail": "no native replay harness for this contract "
                                           "(method / ghost-world function): the solver's model is kept in the replay file"}))
             return
